@@ -22,10 +22,9 @@ from sa.selftest import rename_locals  # noqa: E402
 
 def main() -> int:
     src = read_sources(REPO)
-    variants = {
-        "roundtrip": {k: ast.unparse(ast.parse(v)) for k, v in src.items()},
-        "rename": {k: rename_locals(v) for k, v in src.items()},
-    }
+    from sa.selftest import neutral_variants
+
+    variants = neutral_variants(src)  # roundtrip, rename, flip-if-else, return-through-temporary, swap-equality-operands
     which = sys.argv[1:] or list(variants)
     rc = 0
     base_tree = Tree(src, root="<base>")
